@@ -20,6 +20,9 @@ type KeySetPlan struct {
 	Base      ScriptPlan `json:"base"`
 	Others    []KeySpec  `json:"others"`
 	WithRetry bool       `json:"with_retry"`
+	// Unlisted: the (non-conforming) client sealed with a suite the target
+	// key's config does not list: no key list may make the server accept it.
+	Unlisted bool `json:"unlisted,omitempty"`
 	// OnlyList restricts the enumeration to one list (indices into the pool,
 	// 0 = target), set by the shrinker.
 	OnlyList []int `json:"only_list,omitempty"`
@@ -52,6 +55,10 @@ func executeKeySet(t *testing.T, prop string, seed uint64, p *KeySetPlan) *core.
 	base := p.Base
 	base.Keys = []KeySpec{base.Target}
 	base.Expect = "accept"
+	if p.Unlisted {
+		base.Expect = "reject"
+		base.Mutations = []Mutation{{Kind: "unlisted-suite"}}
+	}
 	b, err := buildScript(seed, &base)
 	if err == errSkip {
 		res.Probe("scenario_skipped")
@@ -63,7 +70,7 @@ func executeKeySet(t *testing.T, prop string, seed uint64, p *KeySetPlan) *core.
 	}
 	pool := append([]KeySpec{base.Target}, p.Others...)
 	var hrr, rec2, want2 []byte
-	if p.WithRetry {
+	if p.WithRetry && !p.Unlisted {
 		hc := &histClient{p: &base, b: b, r: res, seed: seed, sendSeq: 1}
 		hrr = hrrRecord(core.Mix(seed, "hrr"))
 		rec2, _, _, want2, err = hc.hello2("hello2-ok", 0, true)
@@ -89,7 +96,7 @@ func executeKeySet(t *testing.T, prop string, seed uint64, p *KeySetPlan) *core.
 		has := false
 		for _, i := range l {
 			specs = append(specs, pool[i])
-			if i == 0 {
+			if i == 0 && !p.Unlisted {
 				has = true
 			}
 		}
@@ -137,7 +144,7 @@ func executeKeySet(t *testing.T, prop string, seed uint64, p *KeySetPlan) *core.
 			continue
 		}
 		log = append(log, fmt.Sprintf("%v %v", l, has))
-		if !p.WithRetry {
+		if !p.WithRetry || p.Unlisted {
 			continue
 		}
 		var wn int
@@ -191,6 +198,13 @@ func genC09(seed uint64, idx int) *Plan {
 	base.Chunks, base.ReadBuf, base.Trailer = nil, 0, nil
 	base.ExtraIn = max(base.ExtraIn, 2)
 	k := &KeySetPlan{Base: *base, WithRetry: r.IntN(2) == 0}
+	if r.IntN(5) == 0 {
+		k.Unlisted = true
+		k.Base.Target.Suites = k.Base.Target.Suites[:1+r.IntN(min(2, len(k.Base.Target.Suites)))]
+		if len(k.Base.Target.Suites) > 2 {
+			k.Base.Target.Suites = k.Base.Target.Suites[:2]
+		}
+	}
 	n := 1 + r.IntN(3)
 	for i := 0; i < n; i++ {
 		o := KeySpec{ID: byte(r.IntN(256)), PublicName: base.Target.PublicName, Suites: genSuites(r), KeySeed: int(r.Uint32()), Retry: true, OwnEncoder: r.IntN(3) == 0}
